@@ -331,7 +331,7 @@ def u_tooler(c):
     c.prove("untooler/one-pop", st == "ok" and r is fn and events == [("push", caps), ("pop", caps)] and fn.attrs.get("__ptera_stack__") is stack)
 
 
-@unit("autotool", ["C05", "C10", "C18"], [O + ":autotool", S + ":Call.wrap_functions", S + ":verify"], mode="bounded",
+@unit("autotool", ["C05", "C10", "C18", "C07", "C13"], [O + ":autotool", S + ":Call.wrap_functions", S + ":verify"], mode="bounded",
       bound="selector trees of depth <= 2 with <= 2 children")
 def u_autotool(c):
     """autotool(sel): one _tooler(function, captures) per Call level of the selector tree (pre-order), then verify;
@@ -340,7 +340,12 @@ def u_autotool(c):
     it = Interp(c)
     events = []
 
+    fail_at = [None]  # index (in walk order) of a function that cannot be tooled (_tooler raises TypeError BEFORE pushing anything)
+
     def tooler(it_, f, a, k):
+        if fail_at[0] is not None and sum(1 for e in events if e[0] == "tool") == fail_at[0]:
+            events.append(("tool-refused", a[0], a[1]))
+            raise PyRaise(TypeError("cannot be tooled"))
         events.append(("tool", a[0], a[1]))
         return a[0]
 
@@ -372,8 +377,19 @@ def u_autotool(c):
     children = tuple(it.call(Call, [], dict(element=el(fns[1 + j]), captures=(el(f"y{j}"),))) for j in range(nchild))
     root = it.call(Call, [], dict(element=el(fns[0]), captures=caps0, children=children))
     undo = bool(c.choose(2))
-    st, r = run(it, it.get_global(O, "autotool"), [root], dict(undo=undo))
     levels = [(fns[0], caps0)] + [(fns[1 + j], children[j].fields["captures"]) for j in range(nchild)]
+    if not undo and not bad and c.choose(2, "a-function-cannot-be-tooled"):
+        # the selector is refused PART-WAY: a function of the path is not a Python function.  Exactly the functions tooled so far are
+        # untooled -- the ones after it were never pushed and may be instrumented for another, still active probe
+        k_ = c.choose(len(levels), "which")
+        fail_at[0] = k_
+        st, r = run(it, it.get_global(O, "autotool"), [root], {})
+        c.prove("refused-part-way/TypeError", st == "raise" and isinstance(r, TypeError))
+        undone = [e for e in events if e[0] == "untool"]
+        c.prove("refused-part-way/exactly-the-functions-tooled-so-far-are-untooled", len(undone) == k_ and all(
+            e[1] is f and e[2] is cp for e, (f, cp) in zip(undone, reversed(levels[:k_]))), note=f"fail at {k_}: untooled {[e[1].name for e in undone]}", only=["C05", "C10", "C07", "C13"])
+        return
+    st, r = run(it, it.get_global(O, "autotool"), [root], dict(undo=undo))
     tag = "untool" if undo else "tool"
     tool_events = [e for e in events if e[0] != "verify"]
     n = len(levels)
@@ -601,7 +617,7 @@ def u_fanout(c):
         c.prove("exit/then-cleared-then-_exit", len(cleared) == 1 and len(exits) == 1)
 
 
-@unit("OverridableProbe.emit", ["C04", "C12"], [P + ":OverridableProbe._emit", P + ":OverridableProbe.override", P + ":OverridableProbe.koverride",
+@unit("OverridableProbe.emit", ["C04", "C12", "C16"], [P + ":OverridableProbe._emit", P + ":OverridableProbe.override", P + ":OverridableProbe.koverride",
                                                  P + ":Probe._emit", G + ":SourceProxy._push", G + ":ObservableProxy.subscribe"],
       assumed=["reactivex: observable.subscribe(fn) attaches an observer whose on_next(x) calls fn(x) synchronously; a pipeline stage that filters an event simply does not call on_next"])
 def u_overridable_emit(c):
@@ -675,7 +691,7 @@ def u_overridable_emit(c):
     c.prove("third-binding/override-applies-again", st == "ok" and r3 is not absent)
 
 
-@unit("Probe.multi-selector", ["C05", "C07", "C17", "C02"], [P + ":Probe.__init__", P + ":Probe._make_rule", P + ":Probe._enter", P + ":Probe._exit",
+@unit("Probe.multi-selector", ["C05", "C07", "C17", "C02", "C10", "C11"], [P + ":Probe.__init__", P + ":Probe._make_rule", P + ":Probe._enter", P + ":Probe._exit",
                                                              P + ":Probe._install_tooling", P + ":Probe._uninstall_tooling"], mode="bounded",
       bound="one probe given 3 selectors, each with or without a focus, every probe_type, autotool refusing at any position or not at all",
       assumed=["autotool is used through ghost events (its own contract -- a refused selector leaves nothing behind -- is the 'autotool' unit)"])
